@@ -479,8 +479,8 @@ HCPcdeflate_seek(accrec_t *access_rec, int32 offset, int origin)
         HGOTO_ERROR(DFE_NOSPACE, FAIL);
 
     while (deflate_info->offset + DEFLATE_TMP_BUF_SIZE < offset) {
-        /* grab chunks */
-        if (HCIcdeflate_decode(info, DEFLATE_TMP_BUF_SIZE, tmp_buf) == FAIL) {
+        /* grab chunks (a short chunk is the end of the data: the target lies beyond it, and skipping on would never end) */
+        if (HCIcdeflate_decode(info, DEFLATE_TMP_BUF_SIZE, tmp_buf) != DEFLATE_TMP_BUF_SIZE) {
             HGOTO_ERROR(DFE_CDECODE, FAIL);
         }
     }
